@@ -283,18 +283,30 @@ def run(prog, chk):
 
 # ----------------------------------------------------------------------------- deadline: units, intervals, order
 
-def deadline_check(prog, chk, f, prim):
+def deadline_check(prog, chk, f, prim, ts_name="ts", tpar_name=None):
     """returns a normalised text of the deadline computation (for the sibling comparison)"""
     where = "%s:%s" % (f.file, f.line)
-    tpar = f.params[0]["n"]
+    tpar = tpar_name or f.params[0]["n"]
+    TS = ts_name
     sts = []
     for b in sorted(f.blocks, reverse=True):
         for e in f.blocks[b]["el"]:
             if isinstance(e, int) and f.nodes[e]["k"] in ("CompoundAssignOperator", "BinaryOperator") and f.nodes[e].get("op") in ("+=", "%=", "=", "-=", "*=", "/="):
                 lt = f.r(f.nodes[e]["c"][0])
-                if lt in ("ts.tv_nsec", "ts.tv_sec"):
+                if lt in (TS + ".tv_nsec", TS + ".tv_sec") or lt in (TS + "->tv_nsec", TS + "->tv_sec"):
                     sts.append(e)
-    if not callsn(f, "clock_gettime") or not sts:
+    if not sts:
+        # the computation may live in a helper that receives the timespec and the timeout
+        for c in q.calls(f):
+            sig = f.nodes[c].get("csig")
+            g = prog.functions.get(sig)
+            if g is None or g is f or not any("timespec" in p_["t"] for p_ in g.params):
+                continue
+            ti = [k for k, a in enumerate(q.call_args(f, c)) if q.no_casts(f.r(a)) == tpar]
+            tsi = [k for k, p_ in enumerate(g.params) if "timespec" in p_["t"]]
+            if ti and tsi:
+                return deadline_check(prog, chk, g, prim, ts_name=g.params[tsi[0]]["n"], tpar_name=g.params[ti[0]]["n"])
+    if not (callsn(f, "clock_gettime")) or not sts:
         chk.bad("C11.e", f, "deadline-computation-missing", where, "no absolute deadline is computed from clock_gettime for the timed primitive")
         return ""
     # ---- units: exponent k of 10^-k seconds; timeout is in milliseconds (k = 3)
@@ -304,9 +316,9 @@ def deadline_check(prog, chk, f, prim):
         if n["k"] == "DeclRefExpr" and n["ref"]["n"] == tpar:
             return 3
         t = f.r(i)
-        if t == "ts.tv_nsec":
+        if t in (TS + ".tv_nsec", TS + "->tv_nsec"):
             return 9
-        if t == "ts.tv_sec":
+        if t in (TS + ".tv_sec", TS + "->tv_sec"):
             return 0
         if "cv" in n or n["k"] == "IntegerLiteral":
             return None  # pure number
@@ -339,7 +351,7 @@ def deadline_check(prog, chk, f, prim):
     for e in sts:
         n = f.nodes[e]
         lt = f.r(n["c"][0])
-        want = 9 if lt == "ts.tv_nsec" else 0
+        want = 9 if lt.endswith("tv_nsec") else 0
         if n["op"] in ("+=", "-=", "="):
             u = unit(n["c"][1])
             if u != want:
@@ -349,7 +361,7 @@ def deadline_check(prog, chk, f, prim):
     if unit_ok:
         chk.ok("C11.e", f, "deadline arithmetic is unit-consistent (ms -> ns / s)", where, "dimension typing of %d statements" % len(sts), evals=len(sts))
     # ---- intervals
-    env = {"ts.tv_nsec": (0, 999999999), "ts.tv_sec": (0, 1 << 40), tpar: (0, 1 << 40)}
+    env = {TS + ".tv_nsec": (0, 999999999), TS + ".tv_sec": (0, 1 << 40), TS + "->tv_nsec": (0, 999999999), TS + "->tv_sec": (0, 1 << 40), tpar: (0, 1 << 40)}
 
     def iv(i):
         i = f.strip(i)
@@ -386,7 +398,7 @@ def deadline_check(prog, chk, f, prim):
         r = iv(n["c"][1])
         cur = env[lt]
         if n["op"] == "+=":
-            if lt == "ts.tv_sec" and "ts.tv_nsec" in f.r(n["c"][1]) and env["ts.tv_nsec"][1] > 999999999:
+            if lt.endswith("tv_sec") and "tv_nsec" in f.r(n["c"][1]) and max(env[TS + ".tv_nsec"][1], env[TS + "->tv_nsec"][1]) > 999999999:
                 carry_seen = True
             env[lt] = (cur[0] + r[0], cur[1] + r[1])
         elif n["op"] == "%=":
@@ -395,7 +407,7 @@ def deadline_check(prog, chk, f, prim):
             env[lt] = r
         else:
             env[lt] = (-(1 << 62), 1 << 62)
-    ns = env["ts.tv_nsec"]
+    ns = env[TS + ".tv_nsec"] if env[TS + ".tv_nsec"] != (0, 999999999) or not any(f.r(f.nodes[e]["c"][0]).startswith(TS + "->") for e in sts) else env[TS + "->tv_nsec"]
     if 0 <= ns[0] and ns[1] <= 999999999:
         chk.ok("C11.e", f, "tv_nsec of the deadline in [0, 999999999]", where, "interval evaluation gives [%d, %d]" % ns, evals=len(sts))
     else:
@@ -405,4 +417,4 @@ def deadline_check(prog, chk, f, prim):
         chk.ok("C11.e", f, "carry into tv_sec taken while tv_nsec still holds the overflow", where, "statement order", nontrivial=False)
     else:
         chk.bad("C11.e", f, "deadline-carry-lost", where, "tv_sec does not receive tv_nsec / 1000000000 before tv_nsec is reduced: up to one second of the timeout is lost")
-    return " ; ".join(q.no_casts(f.r(e)).replace(tpar, "$T") for e in sts)
+    return " ; ".join(q.no_casts(f.r(e)).replace(tpar, "$T").replace(TS + ".", "ts.").replace(TS + "->", "ts.") for e in sts)
